@@ -1,2 +1,4 @@
 from .c20 import C20
-REGISTRY = {p.id: p for p in [C20()]}
+from .c03 import C03
+from .c13 import C13
+REGISTRY = {p.id: p for p in [C20(), C03(), C13()]}
